@@ -437,8 +437,8 @@ theorem prop_atom (idx : Index) (today : Date) (n : NoteRow) (hn : (n.props.map 
     by_cases hop : op = .exists
     · subst hop; simp
     · have : (op == PropOp.exists) = false := by simpa using hop
-      simp only [this, List.map_cons, List.map_nil, optAny_singleton, sqlCmp_eq today op hop]
-      simp
+      simp only [this, List.map_cons, List.map_nil, optAny_singleton, sqlCmp_eq today op hop, sqliteDateIsNull]
+      split <;> simp
 
 /-! ## atoms -/
 
